@@ -192,8 +192,8 @@ def plan(stage, tier):
     if stage == 'xyzw':
         return qua_units([('float', H), ('double', H)], [H, M], order='xyzw')
     if stage == 'simd':
-        ts = ['float', 'int', 'uint', 'double'] if th else ['float', 'int']
-        quals = [AH, H] + ([AM, AL] if th else [])
+        ts = ['float', 'int', 'uint', 'double']  # the element types with hand-written SSE/AVX constructors and qualifier copies
+        quals = [AH, H, M] + ([AM, AL, Lo] if th else [])  # mediump sources reach the generic CTOR_*_COPY3 macros
         vd = [(t, q) for t in ts for q in ([AH, H] + ([AL] if th else []))]
         md = [('float', AH)] + ([('double', AH), ('int', AH)] if th else [])
         return (vec_units(vd, BASIC_TYPES, quals, only_aligned=True) + mat_units(md, BASIC_TYPES, [AH, H], shapes=SHAPES9 if th else [(2, 2), (3, 3), (4, 4), (4, 3), (2, 4)])
